@@ -5,7 +5,7 @@ import codec_common as cc
 CONFIG = {
     "lean_props": "J5V/Props/C03.lean",
     "extract": ["codec"],
-    "streams": [cc.DEC(12000, 240000), cc.QUERY(6000, 120000)],
+    "streams": [cc.DEC(48000, 800000), cc.QUERY(24000, 400000)],
     "trusted_base": cc.TRUSTED,
     "assumptions": cc.ASSUMPTIONS,
 }
